@@ -303,3 +303,19 @@ def check(ctx):
                      "and suffix is exercised and none is unknown to the generator)")
     ctx.assumptions += ["the generator's encoding of the documented reading (witness/gen.py)",
                         "f32 unit conversion in the macro may differ from the decimal reading by 1 ulp (recorded, tolerated)"]
+
+
+def controls(ctx, F):
+    bm = F.one(crate="witness_controls", name="ctl_timeline_macro")
+    br = F.one(crate="witness_controls", name="ctl_timeline_ref")
+    em, pm = tv.summarize(F, bm)
+    er, pr = tv.summarize(F, br)
+    pairs = tv.pair_paths(pm, pr)
+    ok = pairs is not None
+    diffs = {}
+    if ok:
+        for (xm, xr) in pairs:
+            am, ar = tv.build_args(xm.ret), tv.build_args(xr.ret)
+            ok = ok and len(am) == len(ar) == 1 and tv.same(tv.timeline_record(am[0]), tv.timeline_record(ar[0]), diffs, "t")
+    ctx.ob("R1", "control/pair", ok, "control pair differs: %s" % diffs.get("diff", [])[:2], what="macro-differs-from-builder")
+    return [("R1", "macro-differs-from-builder", "a timeline! use and a builder chain with delay and duration swapped")]
